@@ -700,7 +700,12 @@ where
     /// # Returns
     /// * `true` if the key exists, `false` otherwise
     pub fn contains_key(&self, key: &[u8]) -> bool {
-        self.trie.contains(key)
+        // The trie may keep the node of a removed key (not every strategy supports removal):
+        // a key is present only while it still resolves to a record, as in get_by_key.
+        match self.trie.lookup_node_id(key) {
+            Some(node_id) => self.node_to_blob_map.contains_key(&(node_id as usize)),
+            None => false,
+        }
     }
 
     /// Get all data for keys with a given prefix
